@@ -542,6 +542,16 @@ func runSchedule(res *core.Result, r *rand.Rand, s setup, initSet int, retries i
 		return branch, true
 	}
 
+	if sig != "" && core.AsyncTree.Load() {
+		// A tree that answers from goroutines of its own: quiescence after a delivery is read from the scheduler's
+		// counters, which are approximate. If a message shows up after the verdict was taken, the state that was
+		// judged was not a quiescent one: the schedule is discarded (counted), not reported.
+		core.WaitForeignIdle()
+		if w.ms.Pending() > 0 {
+			res.Count("schedules_discarded_message_appeared_after_the_verdict", 1)
+			return branch, true
+		}
+	}
 	if sig != "" {
 		// schedule pattern for the known-findings matcher: which requests were handled before the first response
 		res.Violate(sig, fmt.Sprintf("%s: schedule [%s]: %s", desc, schedule, msg), map[string]any{"setup": desc, "schedule": w.trace, "choices": choices, "case_id": desc + "|" + schedule})
